@@ -158,7 +158,7 @@ def run_shard(args):
             last = case
             signal.setitimer(signal.ITIMER_VIRTUAL, HANG_SECONDS)
             try:
-                mod.check(case, ctx)
+                run_check(mod, case, ctx)
             except Hang:
                 ctx.fail(f'hang: the case did not finish within {HANG_SECONDS} CPU-seconds (termination)', hang=True)
                 hangs += 1
@@ -180,6 +180,44 @@ def run_shard(args):
         'fails': ctx.fails, 'samples': samples, 'caps': ctx.caps,
         'max_depth': ctx.max_depth, 'wall': time.time() - t0,
     }
+
+
+def run_check(mod, case, ctx):
+    """mod.check, with an exception that comes out of a library call turned into a failure of the case."""
+    try:
+        mod.check(case, ctx)
+    except Hang:
+        raise
+    except Exception as e:      # noqa: BLE001
+        where = _raised_in_library(e)
+        if where is None:
+            raise               # a problem of the check itself: harness error
+        # the check called the library and an exception it does not anticipate came out of it: on this input
+        # the unchanged tree does not raise (the check is silent there), so this is a behaviour change
+        ctx.fail(f'the library raised {type(e).__name__} where the check expects a result', observed=[str(e)[:200], where])
+
+
+def _raised_in_library(exc):
+    """If the exception left the check through a call into the library under test, return 'file:line' of the
+    library frame that was entered from the check; None when the exception was raised by the check's own code."""
+    import penman
+    pkg = os.path.dirname(os.path.abspath(penman.__file__)) + os.sep
+    here = os.path.dirname(os.path.dirname(os.path.abspath(__file__))) + os.sep      # .../pmc/
+    frames = []
+    tb = exc.__traceback__
+    while tb is not None:
+        frames.append((os.path.abspath(tb.tb_frame.f_code.co_filename), tb.tb_lineno))
+        tb = tb.tb_next
+    last_pmc = max((i for i, (f, _) in enumerate(frames) if f.startswith(here)), default=None)
+    if last_pmc is None or last_pmc + 1 >= len(frames):
+        return None
+    # the frames below the check's last frame: the first one that is not the standard library must be the package
+    for f, line in frames[last_pmc + 1:]:
+        if f.startswith(pkg):
+            return f'{os.path.relpath(f, os.path.dirname(pkg.rstrip(os.sep)))}:{line}'
+        if f.startswith(here):
+            return None
+    return None
 
 
 def _init_worker():
@@ -364,7 +402,7 @@ def reproduce(prop, f):
         ctx = Ctx(prop, f['sub'])
         ctx.case = f['case']
         try:
-            mod.check(json.loads(json.dumps(f['case'])), ctx)
+            run_check(mod, json.loads(json.dumps(f['case'])), ctx)
         except Exception:
             return False, 'replay raised: ' + traceback.format_exc()
         msgs.append([x['msg'] for x in ctx.fails])
@@ -624,7 +662,7 @@ def replay_file(prop, mod, path):
         return 0
     ctx = Ctx(prop, d.get('sub'))
     ctx.case = d['case']
-    mod.check(d['case'], ctx)
+    run_check(mod, d['case'], ctx)
     if ctx.fails:
         for f in ctx.fails:
             print(f'VIOLATION property={prop} replay={path}')
